@@ -360,6 +360,43 @@ def d6_misc(ctx, m):
     ctx.check(rule, 'dobs#ne-check', ok, 'number of ensembles is cross-checked', 'ne check missing')
 
 
+def d8_zero_abbreviation(ctx, m, rule='C12-D5'):
+    """(a) the abbreviation '0 ' stands for the *written number* being zero: its test is on the very expression that the other branch
+    formats.  (b) the replicas of an ensemble are selected by one and the same ensemble name in both alternatives of the test."""
+    n = 0
+    for fn in ('create_pobs_string', 'create_dobs_string'):
+        f = m.func(fn)
+        for st in statements(f):
+            if isinstance(st, ast.If) and len(st.body) == 1 and len(st.orelse) == 1 and all(isinstance(x, ast.AugAssign) for x in (st.body[0], st.orelse[0])):
+                b, o = st.body[0], st.orelse[0]
+                if isinstance(b.value, ast.Constant) and b.value.value == '0 ' and isinstance(o.value, ast.BinOp) and isinstance(o.value.op, ast.Mod):
+                    n += 1
+                    x = unparse(o.value.right).strip('()')
+                    t = st.test
+                    ok = isinstance(t, ast.Compare) and len(t.ops) == 1 and isinstance(t.ops[0], ast.Eq) and const(t.comparators[0]) == 0 and unparse(t.left) == x
+                    ctx.check(rule, 'input/dobs.py:%s#zero-abbreviation[%s]' % (fn, x), ok, "'0 ' is written iff the number that would be formatted is zero",
+                              "'0 ' is written under `%s` while the other branch formats `%s`: a sample whose written value is not zero is stored as 0" % (unparse(t), x), m.loc(st))
+    ctx.floor("'0 ' abbreviations in the XML writers", n, 2)
+    f = m.func('create_dobs_string')
+    k = 0
+    for bo in [x for x in walk(f) if isinstance(x, ast.BoolOp) and isinstance(x.op, ast.Or) and len(x.values) == 2]:
+        a, b = bo.values
+        if isinstance(a, ast.Call) and isinstance(a.func, ast.Attribute) and a.func.attr == 'startswith' and a.args and isinstance(a.args[0], ast.BinOp) and isinstance(b, ast.Compare) \
+                and len(b.ops) == 1 and isinstance(b.ops[0], ast.Eq) and unparse(b.left) == unparse(a.func.value):
+            k += 1
+            e1, e2 = unparse(a.args[0].left), unparse(b.comparators[0])
+            params = {x.arg for x in f.args.args}
+            q_, loopvars = m.parents.get(bo), set()
+            while q_ is not None and q_ is not f:
+                if isinstance(q_, ast.For):
+                    loopvars |= {y.id for y in walk(q_.target) if isinstance(y, ast.Name)}
+                q_ = m.parents.get(q_)
+            params = params - loopvars          # a loop variable that re-uses the name of a parameter is the loop variable here
+            ctx.check(rule, 'input/dobs.py:create_dobs_string#replicas-of-ensemble', e1 == e2 and e1 not in params, "replica n belongs to ensemble e iff n starts with e + '|' or n == e (one e, the loop variable)",
+                      "the replicas are selected by `startswith(%s + '|')` or `== %s`: two different names (%s)" % (e1, e2, 'one is a parameter of the function' if (e1 in params or e2 in params) else 'different variables'), m.loc(bo))
+    ctx.floor('replica selection tests', k, 1)
+
+
 def d7_samples(ctx, m):
     from .. import samplerule
     n = samplerule.check(ctx, 'C12-D7', m)
@@ -480,6 +517,7 @@ def run(ctx):
     ctx.guarded('C12-D5', 'dobs@formats', d5_formats, ctx, m)
     ctx.guarded('C12-D6', 'dobs@misc', d6_misc, ctx, m)
     ctx.rule('C12-D7', 'sample reconstruction (delta + own replica mean); gradient table orientation')
+    ctx.guarded('C12-D5', 'dobs@zero-abbreviation', d8_zero_abbreviation, ctx, m)
     ctx.guarded('C12-D7', 'dobs@samples', d7_samples, ctx, m)
     ctx.guarded('C12-D7', 'dobs@per-replica-and-pruning', d9_per_replica_and_pruning, ctx, m)
     from .. import unusedparams, leakedloop
